@@ -1484,7 +1484,14 @@ func (ex *Exec) next(it *RangeIter, x *ssa.Next) Value {
 		}
 	}
 	tt := x.Type().(*types.Tuple)
-	return Tuple{p.Bool(false), ex.zero(tt.At(1).Type()), ex.zero(tt.At(2).Type())}
+	zk, zv := Value(nil), Value(nil)
+	if t := tt.At(1).Type(); t != types.Typ[types.Invalid] {
+		zk = ex.zero(t)
+	}
+	if t := tt.At(2).Type(); t != types.Typ[types.Invalid] {
+		zv = ex.zero(t)
+	}
+	return Tuple{p.Bool(false), zk, zv}
 }
 
 func (ex *Exec) sameKey(a, b Value) bool {
